@@ -291,8 +291,8 @@ def r04_4(ctx, v):
             s, sp = canon_test(t, pol)
             if (s in (f"len({off}) == 0", f"{off} == []") and sp) or (s == off and not sp) or (s in (f"len({off}) > 0", f"len({off})") and not sp):
                 # must precede the emission loops
-                first_emit = min(v.emit_loops, key=lambda l: l.lineno)
-                if r.lineno < first_emit.lineno:
+                first_emit = min(v.emit_loops, key=lambda l: run.pos(l))
+                if run.before(r, first_emit):
                     ok = True
     ctx.check(ok, "R04.4", run.where(), "when no offsets were found a CommandLineError is raised before anything is printed", key_of(run, "empty-report"))
     # the caller turns CommandLineError into a non-zero exit
